@@ -43,6 +43,7 @@ def main(argv):
             chk.error("analysis aborted: %s" % e)
             explanation = None
         lints.run_for(chk, prog, pid, extra_files=getattr(mod, "LINT_EXTRA_FILES", ()))
+        lints.gate_report(chk, pid)
         explanation = (explanation or mod.__doc__ or pid) + "\n\nShared lints run on this property's anchor files (sa/lints.py):\n" + lints.__doc__
         return chk.finish(explanation)
     except AnalysisError as e:
